@@ -437,8 +437,6 @@ theorem rangeText_flt_flt (left : Bytes) (incl : Bool) (lo hi : F64)
       left ++ opText (loOp incl) ++ fmtFixed lo 2 ++ [32, 65, 78, 68, 32] ++ left ++ opText (hiOp incl) ++ fmtFixed hi 2 := by
   have e1 := allNum_ne_starQ (fmtG_allNum lo)
   have e2 := allNum_ne_starQ (fmtG_allNum hi)
-  have s1 := allNum_ne_star (fmtG_allNum lo)
-  have s2 := allNum_ne_star (fmtG_allNum hi)
   have ti : toInts (fmtG lo) (fmtG hi) = none := by
     unfold toInts
     simp only [e1, e2, Bool.false_eq_true, ↓reduceIte]
@@ -450,16 +448,48 @@ theorem rangeText_flt_flt (left : Bytes) (incl : Bool) (lo hi : F64)
       | some c => simp [h1, h2] at hi1
   have tf : toFloats (fmtG lo) (fmtG hi) = some (lo, hi) := by
     unfold toFloats
-    simp only [s1, s2, Bool.false_eq_true, ↓reduceIte, r1, r2]
+    simp only [e1, e2, Bool.false_eq_true, ↓reduceIte, r1, r2]
   unfold rangeText
   simp only [ti, tf]
   exact rangeCmp_two _ _ _ _ _ _ e1 e2
+
+theorem isSome_false_none {α} {o : Option α} (h : o.isSome = false) : o = none := by
+  cases o <;> simp_all
+
+/-- an OPEN float range, upper bound only (fix F12: `toFloats` recognises `'*'`): `left <= 1.50` -/
+theorem rangeText_star_flt (left : Bytes) (incl : Bool) (hi : F64)
+    (hn : (atoi (fmtG hi)).isSome = false) (r2 : parseFloat (fmtG hi) = some hi) :
+    rangeText left incl starQ (fmtG hi) = left ++ opText (hiOp incl) ++ fmtFixed hi 2 := by
+  have e2 := allNum_ne_starQ (fmtG_allNum hi)
+  have ti : toInts starQ (fmtG hi) = none := by
+    unfold toInts
+    simp only [beq_self_eq_true, e2, Bool.false_eq_true, ↓reduceIte, isSome_false_none hn]
+  have tf : toFloats starQ (fmtG hi) = some ((parseFloat starQ).getD F64.zero, hi) := by
+    unfold toFloats
+    simp only [beq_self_eq_true, e2, Bool.false_eq_true, ↓reduceIte, r2]
+  unfold rangeText
+  simp only [ti, tf]
+  exact rangeCmp_upper _ _ _ _ _
+
+/-- an OPEN float range, lower bound only: `left >= 1.50` -/
+theorem rangeText_flt_star (left : Bytes) (incl : Bool) (lo : F64)
+    (hn : (atoi (fmtG lo)).isSome = false) (r1 : parseFloat (fmtG lo) = some lo) :
+    rangeText left incl (fmtG lo) starQ = left ++ opText (loOp incl) ++ fmtFixed lo 2 := by
+  have e1 := allNum_ne_starQ (fmtG_allNum lo)
+  have ti : toInts (fmtG lo) starQ = none := by
+    unfold toInts
+    simp only [beq_self_eq_true, e1, Bool.false_eq_true, ↓reduceIte, isSome_false_none hn]
+  have tf : toFloats (fmtG lo) starQ = some (lo, (parseFloat starQ).getD F64.zero) := by
+    unfold toFloats
+    simp only [beq_self_eq_true, e1, Bool.false_eq_true, ↓reduceIte, r1]
+  unfold rangeText
+  simp only [ti, tf]
+  exact rangeCmp_lower _ _ _ _ _ e1
 
 theorem rangeText_str_str (left : Bytes) (incl : Bool) (lo hi : Bytes) (h1 : (lo != [42]) = true) :
     rangeText left incl (sqlQuote lo) (sqlQuote hi) =
       left ++ [32, 66, 69, 84, 87, 69, 69, 78, 32] ++ sqlQuote lo ++ [32, 65, 78, 68, 32] ++ sqlQuote hi := by
   have e1 := sqlQuote_ne_starQ lo h1
-  have s1 := sqlQuote_ne_star lo
   have a1 : atoi (sqlQuote lo) = none := atoi_quote _
   have p1 : parseFloat (sqlQuote lo) = none := parseFloat_quote _
   have ti : toInts (sqlQuote lo) (sqlQuote hi) = none := by
@@ -467,7 +497,7 @@ theorem rangeText_str_str (left : Bytes) (incl : Bool) (lo hi : Bytes) (h1 : (lo
     simp only [e1, Bool.false_eq_true, ↓reduceIte, a1]
   have tf : toFloats (sqlQuote lo) (sqlQuote hi) = none := by
     unfold toFloats
-    simp only [s1, Bool.false_eq_true, ↓reduceIte, p1]
+    simp only [e1, Bool.false_eq_true, ↓reduceIte, p1]
   unfold rangeText
   simp only [ti, tf, b_between, b_and]
 
@@ -555,6 +585,14 @@ theorem good_range (l mn mx : Node) (incl : Bool) (ba bc : Bnd) (p : F64) (d : I
     · rw [htoCst]; simp [rangeAst, emb]
     · rw [hrender boundText_starQ (boundText_fmtInt hi)]
       simp only [bndText, rangeText_star_int _ _ _ hcl, cstText_cmp, hthi]
+  · -- star, flt
+    rename_i hi
+    obtain ⟨hAhi, hthi⟩ := fixedAst_atom hi (twoDec_finite hi hcl.1)
+    refine ⟨.cmp (hiOp incl) (.col f) (emb (fixedAst hi)), ?_, RE.leaf (Leaf.cmp _ hA hAhi), ?_⟩
+    · rw [htoCst]; simp [rangeAst, emb]
+    · rw [hrender boundText_starQ (boundText_fmtG hi)]
+      have hn : (atoi (fmtG hi)).isSome = false := by simpa using hcl.2
+      simp only [bndText, rangeText_star_flt _ _ _ hn (fltBoundRT_inv hbc hrt.2), cstText_cmp, hthi]
   · -- int, star
     rename_i lo
     obtain ⟨hAlo, htlo⟩ := intAst_atom lo
@@ -572,6 +610,14 @@ theorem good_range (l mn mx : Node) (incl : Bool) (ba bc : Bnd) (p : F64) (d : I
     · rw [hrender (boundText_fmtInt lo) (boundText_fmtInt hi)]
       simp only [bndText, rangeText_int_int _ _ _ _ hcl.1 hcl.2, cstText_and, cstText_cmp, htlo, hthi,
         List.append_assoc]
+  · -- flt, star
+    rename_i lo
+    obtain ⟨hAlo, htlo⟩ := fixedAst_atom lo (twoDec_finite lo hcl.1)
+    refine ⟨.cmp (loOp incl) (.col f) (emb (fixedAst lo)), ?_, RE.leaf (Leaf.cmp _ hA hAlo), ?_⟩
+    · rw [htoCst]; simp [rangeAst, emb]
+    · rw [hrender (boundText_fmtG lo) boundText_starQ]
+      have hn : (atoi (fmtG lo)).isSome = false := by simpa using hcl.2
+      simp only [bndText, rangeText_flt_star _ _ _ hn (fltBoundRT_inv hba hrt.1), cstText_cmp, htlo]
   · -- flt, flt
     rename_i lo hi
     obtain ⟨hAlo, htlo⟩ := fixedAst_atom lo (twoDec_finite lo hcl.1.1)
